@@ -62,7 +62,9 @@ def run(tier):
     invs = ["TypeOK", "HonestCompletes", "OutputValid", "Detected", "BlameExact", "StageAsPredicted", "FormulasExact"]
     fields = [({"a", "b", "c"}, 3, {1, 2}, {1}, {1, 2}), ({"a", "b"}, 5, {1}, {2}, {1, 2})]
     if not quick:
-        fields += [({"a", "b", "c"}, 3, {1}, {0, 2}, {1}), ({"a", "b"}, 5, {1, 3}, {0, 1}, {1, 2, 3, 4}), ({"a", "b"}, 7, {1}, {3}, {1, 6})]
+        # (beta is drawn per ordered pair of signers: with three signers every further value multiplies the states by 64 -
+        #  the two-valued set is explored with two signers)
+        fields += [({"a", "b", "c"}, 3, {1}, {2}, {1}), ({"a", "b"}, 5, {1, 3}, {0, 1}, {1, 2, 3, 4}), ({"a", "b"}, 7, {1}, {3}, {1, 6})]
     catalogue = None
     for parties, q, msgs, betas, offs in fields:
         for online in (True, False):
